@@ -89,6 +89,7 @@ std::int64_t AllocLive();
 // Folds a value an oracle depends on into the state fingerprint of the execution (see engine.cpp,
 // partial-order fingerprint): states that differ in it are never merged by the state cache.
 void Fold(std::uint64_t value);
+void SharedAccess(const void* obj, bool writes, std::uint64_t value);
 
 // Cross-fiber observation variable of a harness.  Not a scheduling point, never a data race (relaxed
 // std::atomic), and every access is folded into the state fingerprint.
@@ -98,16 +99,16 @@ class Shared {
   }
   int Get() const {
     const int v = _v.load(std::memory_order_relaxed);
-    Fold((static_cast<std::uint64_t>(_id) << 40) ^ (static_cast<std::uint64_t>(static_cast<unsigned>(v)) << 8) ^ 1);
+    SharedAccess(this, false, static_cast<unsigned>(v));
     return v;
   }
   void Set(int v) {
     _v.store(v, std::memory_order_relaxed);
-    Fold((static_cast<std::uint64_t>(_id) << 40) ^ (static_cast<std::uint64_t>(static_cast<unsigned>(v)) << 8) ^ 2);
+    SharedAccess(this, true, static_cast<unsigned>(v));
   }
   int Add(int d) {
     const int v = _v.fetch_add(d, std::memory_order_relaxed) + d;
-    Fold((static_cast<std::uint64_t>(_id) << 40) ^ (static_cast<std::uint64_t>(static_cast<unsigned>(v)) << 8) ^ 3);
+    SharedAccess(this, true, static_cast<unsigned>(v));
     return v;
   }
 
